@@ -47,7 +47,7 @@ func buildPipeline(g *scheduler.ExecutionGraph, stages []*stageDefinition, cfg *
 			Variables:    variables.FromMap(def.Variables),
 		}
 
-		if stage.Dir != "" {
+		if stage.Dir != "" && stage.Task != nil {
 			stage.Task.Dir = stage.Dir
 		}
 
